@@ -46,6 +46,9 @@ PROBES = [
     ('<ul><li tal:repeat="k sorted(d)" tal:attributes="class repeat.k.odd and \'o\' or None">${k}=${d[k]}</li>'
      '<li tal:repeat="(k, v) sorted(d.items())">${k}:${v}</li></ul>'
      '<p tal:define="x a; global y a" tal:omit-tag="a == 2">${x}${y}</p>${y}${exists: x}', {}),
+    # a prefix nobody declared
+    ('<p t:content="a" class="c">k</p>', {}),
+    ('<p t:content="a" class="c">k</p>', {"restricted_namespace": False}),
 ]
 
 
@@ -68,6 +71,11 @@ def _polluters(PageTemplate):
         lambda: PageTemplate('<p tal:content="a">x</p>', strict=False, trim_attribute_space=True, enable_data_attributes=True,
                              restricted_namespace=False, implicit_i18n_translate=True, implicit_i18n_attributes={"title", "class"})(a=1),
         lambda: PageTemplate('<a title="x" class="c">${a}</a>', encoding="latin-1", on_error_handler=lambda e: None)(a=b"\xe9"),
+        # namespace declarations are the document's own: a top-level (empty) element that makes the template language the
+        # default namespace, or binds a prefix of its own to it
+        lambda: PageTemplate('<block xmlns="http://xml.zope.org/namespaces/tal" replace="a" />')(a=1),
+        lambda: PageTemplate('<t:block xmlns:t="http://xml.zope.org/namespaces/tal" t:replace="a" /><i18n:x xmlns:i18n="urn:other" />')(a=1),
+        lambda: PageTemplate('<p xmlns:t="http://xml.zope.org/namespaces/metal" xmlns:tal="urn:mine" tal:content="a"><br xmlns="urn:x"/></p>')(a=1),
     ]
 
 
